@@ -611,6 +611,11 @@ func checkC18(p *core.Program, r *core.Report) {
 		r.Check(okLang, "R4", key, p.Pos(c.Pos()), "locale from the language of the lookup that produced the content", "the IVR message's locale comes from "+got+", not from the lookup that produced its content: a message spoken in one language is reported in another")
 	}
 	r.Require("ivr_message_sites", nIVR, 2)
+
+	// the localized category name of a result is part of what Results.Save stores: a Save that keeps the old entry when
+	// value and category are unchanged keeps the category name of the previous language (imported from C07/R5)
+	r.Rule("R5", "a saved result always replaces the stored one (imported from C07/R5): category_localized follows the language in force at the latest routing even when value and category did not change")
+	importObligations(p, r, "C07", map[string]bool{"R5": true}, "R5", "the result kept in the run carries the category name of an earlier language")
 }
 
 // isDefaultLanguageOf: v is X.DefaultLanguage() where X comes from a call of the named session method.
